@@ -1,6 +1,180 @@
-(* Proofs for property C06 (model: Fault/Model.v). *)
-From DJC Require Import Lib.Base Fault.Model.
+(* Proofs for property C06 (model: Fault/Model.v).
+   Fault/Lemmas.v, Inv.v, Steps.v, Combs.v, Main.v carry the induction over render trees (Main.all_ok);
+   Fault/SpecProofs.v the facts about the S-model.  Here: the top-level theorems about `run` / `run_seq`
+   for the repaired code (cfg_fixed), and the witnesses against the code before the repair (cfg_old). *)
+From DJC Require Import Lib.Base Fault.Model Fault.Lemmas Fault.Inv Fault.Steps Fault.Combs Fault.Main Fault.SpecProofs.
+Local Open Scope N_scope.
 
+(* a state whose tables hold nothing (ids already handed out and the stacks are arbitrary) *)
+Definition clean (s : st) : Prop :=
+  cctx s = [] /\ rend s = [] /\ cattrs s = [] /\ pcache s = [] /\ prefs s = [] /\ allrefs s = [] /\ cbs s = [].
+
+Lemma clean_init : clean init.
+Proof. repeat split. Qed.
+Lemma clean_tables_empty s : clean s -> tables_empty s = true.
+Proof. intros [H1 [H2 [H3 [H4 [H5 [H6 _]]]]]]. unfold tables_empty. rewrite H1, H2, H3, H4, H5, H6. reflexivity. Qed.
+Lemma clean_bits s : clean s -> forall t x, bit t x s = false.
+Proof. intros [H1 [H2 [H3 [H4 [H5 [H6 H7]]]]]] t x. destruct t; cbn [bit]; rewrite ?H1, ?H2, ?H3, ?H5, ?H6; reflexivity. Qed.
+Lemma clean_PI s : clean s -> PI s.
+Proof.
+  intros [H1 [H2 [H3 [H4 [H5 [H6 H7]]]]]]. constructor; rewrite ?H4, ?H5, ?H6.
+  - constructor.
+  - reflexivity.
+  - intros P l Hl. discriminate Hl.
+  - intros P x Hx. discriminate Hx.
+Qed.
+Lemma clean_below s : clean s -> below s.
+Proof.
+  intros Hc x _. pose proof (clean_bits s Hc) as Hb. destruct Hc as [H1 [H2 [H3 [H4 [H5 [H6 H7]]]]]].
+  constructor; rewrite ?H4, ?H5, ?H7; auto.
+Qed.
+Lemma alookup_none_nil {V} (l : list (N * V)) : (forall k, alookup k l = None) -> l = [].
+Proof.
+  destruct l as [|[k v] l]; [reflexivity|]. intro H. specialize (H k). cbn in H. rewrite N.eqb_refl in H. discriminate.
+Qed.
+
+Lemma step_none_clean s s' : clean s -> step None NoR s s' -> clean s'.
+Proof.
+  intros Hc A. pose proof (clean_bits s Hc) as Hb.
+  assert (Hb' : forall t x, bit t x s' = false).
+  { intros t x. destruct (bit t x s') eqn:E; [| reflexivity]. exfalso.
+    destruct (N.lt_ge_cases x (next s)) as [Hlt|Hge].
+    - apply (st_shrink _ _ _ _ A x Hlt) in E. rewrite Hb in E. discriminate.
+    - apply (st_logged _ _ _ _ A x Hge t E). }
+  assert (Hprefs : prefs s' = []).
+  { apply alookup_none_nil. intro k. destruct (alookup k (prefs s')) as [l|] eqn:E; [| reflexivity]. exfalso.
+    apply (pi_nonempty s' (st_pi _ _ _ _ A) k l E). apply mem_false_nil. intro x.
+    specialize (Hb' (TRef k) x). cbn [bit] in Hb'. unfold aget in Hb'. rewrite E in Hb'. exact Hb'. }
+  destruct Hc as [H1 [H2 [H3 [H4 [H5 [H6 H7]]]]]].
+  repeat split.
+  - apply mem_false_nil. intro x. apply (Hb' TCctx x).
+  - apply mem_false_nil. intro x. apply (Hb' TRend x).
+  - apply mem_false_nil. intro x. apply (Hb' TCattrs x).
+  - apply mem_false_nil. intro x. rewrite <- (pi_keys s' (st_pi _ _ _ _ A)), Hprefs. reflexivity.
+  - exact Hprefs.
+  - apply mem_false_nil. intro x. apply (Hb' TAll x).
+  - apply alookup_none_nil. intro k. rewrite (st_cbs_other _ _ _ _ A k); [rewrite H7; reflexivity | discriminate].
+Qed.
+
+(* ------------------------------------------------------------------------------------------------ *)
+(* One render                                                                                        *)
+(* ------------------------------------------------------------------------------------------------ *)
+Lemma run_main um t f s0 :
+  clean s0 ->
+  clean (snd (run C um t f s0)) /\
+  meta (snd (run C um t f s0)) = meta s0 /\ rctx (snd (run C um t f s0)) = rctx s0 /\
+  next s0 <= next (snd (run C um t f s0)) /\
+  fst (run C um t f s0) = spec_outcome um t f.
+Proof.
+  intro Hc. set (s := set_fault f s0).
+  assert (Hcs : clean s) by exact Hc.
+  destruct (all_ok um) as [_ [Hl _]]. destruct (Hl t) as [Hp _].
+  destruct (Hp top_env s (clean_PI s Hcs) (clean_below s Hcs)) as [res [s' [Hrun [A [K [Cc _]]]]]].
+  { intros P []. } { intros a []. } { intros r Hr. discriminate Hr. }
+  cbn [eroot top_env e_anc] in A. cbv beta in Cc. cbn [istop top_env e_anc] in Cc.
+  assert (Hf : fault s = f) by reflexivity. rewrite Hf in Cc.
+  pose proof (step_none_clean s s' Hcs A) as Hc'.
+  unfold run, spec_outcome. fold s. rewrite Hrun.
+  destruct K as [K1 K2]. pose proof (st_next _ _ _ _ A) as Hn.
+  destruct (sp_prep_items um true t f) as [k|e]; cbn [ctl] in Cc.
+  - destruct Cc as [[a ->] _]. cbn [fst snd]. repeat split; try apply Hc'; auto.
+  - destruct Cc as [-> _]. destruct e as [c m|k]; cbn [fst snd]; repeat split; try apply Hc'; auto.
+Qed.
+
+Lemma tables_empty_lemma um t f : tables_empty (snd (run C um t f init)) = true.
+Proof. apply clean_tables_empty. apply (run_main um t f init clean_init). Qed.
+
+Lemma tables_empty_from_clean_lemma um t f s0 : clean s0 -> clean (snd (run C um t f s0)).
+Proof. intro H. apply (run_main um t f s0 H). Qed.
+
+Lemma stacks_restored_lemma um t f s0 :
+  clean s0 -> meta (snd (run C um t f s0)) = meta s0 /\ rctx (snd (run C um t f s0)) = rctx s0.
+Proof. intro H. destruct (run_main um t f s0 H) as [_ [H1 [H2 _]]]. split; assumption. Qed.
+
+Lemma stacks_empty_lemma um t f : stacks_empty (snd (run C um t f init)) = true.
+Proof.
+  destruct (stacks_restored_lemma um t f init clean_init) as [H1 H2]. unfold stacks_empty. rewrite H1, H2. reflexivity.
+Qed.
+
+Lemma outcome_is_spec_lemma um t f s0 : clean s0 -> fst (run C um t f s0) = spec_outcome um t f.
+Proof. intro H. apply (run_main um t f s0 H). Qed.
+
+(* the outcome prescribed by the S-model: the user's exception, exactly for the fault indices below the
+   number of callback invocations; its message is the prefix line followed by the original text *)
+Lemma spec_outcome_lemma um t f :
+  strip_prefix um = um ->
+  match spec_outcome um t f with
+  | OOk => f = None \/ exists k, f = Some k /\ (npoints t <= k)%nat
+  | OUser c m => (exists k, f = Some k /\ (k < npoints t)%nat) /\
+                 ((m = um /\ slots_only c) \/
+                  (exists sl c0, c = sl ++ c0 /\ slots_only sl /\ m = MPrefix c0 :: um))
+  | OInternal _ => False
+  end.
+Proof.
+  intro Hum. unfold spec_outcome.
+  destruct (cnt_all um) as [_ [Hc _]]. destruct (Hc t) as [Hcp _]. specialize (Hcp true f).
+  destruct (gd_all um Hum) as [_ [Hg _]]. destruct (Hg t) as [Hgp _]. specialize (Hgp true f).
+  fold (npoints t) in Hcp.
+  destruct (sp_prep_items um true t f) as [k'|e].
+  - destruct f as [k|]; [| left; reflexivity]. right. exists k. split; [reflexivity|].
+    cbn [cnt] in Hcp. destruct (Nat.ltb k (npoints t)) eqn:E; [destruct Hcp as [e He]; discriminate He|].
+    apply Nat.ltb_ge in E. exact E.
+  - cbn [gd] in Hgp. destruct Hgp as [c [m [-> Hm]]]. split; [| exact Hm].
+    destruct f as [k|]; cbn [cnt] in Hcp; [| discriminate Hcp]. exists k. split; [reflexivity|].
+    destruct (Nat.ltb k (npoints t)) eqn:E; [apply Nat.ltb_lt in E; exact E | discriminate Hcp].
+Qed.
+
+Lemma exception_class_preserved_lemma um t f :
+  strip_prefix um = um ->
+  match fst (run C um t f init) with
+  | OOk => f = None \/ exists k, f = Some k /\ (npoints t <= k)%nat
+  | OUser c m => (exists k, f = Some k /\ (k < npoints t)%nat) /\
+                 ((m = um /\ slots_only c) \/
+                  (exists sl c0, c = sl ++ c0 /\ slots_only sl /\ m = MPrefix c0 :: um))
+  | OInternal _ => False
+  end.
+Proof. intro Hum. rewrite (outcome_is_spec_lemma um t f init clean_init). apply spec_outcome_lemma. exact Hum. Qed.
+
+(* whatever was rendered before (and however it ended), a render behaves as from the empty state *)
+Lemma later_render_unaffected_lemma um0 t0 f0 um t f :
+  let s1 := snd (run C um0 t0 f0 init) in
+  fst (run C um t f s1) = fst (run C um t f init) /\ tables_empty (snd (run C um t f s1)) = true.
+Proof.
+  intro s1. assert (Hc : clean s1) by (apply (run_main um0 t0 f0 init clean_init)).
+  split.
+  - rewrite (outcome_is_spec_lemma um t f s1 Hc), (outcome_is_spec_lemma um t f init clean_init). reflexivity.
+  - apply clean_tables_empty. apply (run_main um t f s1 Hc).
+Qed.
+
+(* ------------------------------------------------------------------------------------------------ *)
+(* Histories                                                                                         *)
+(* ------------------------------------------------------------------------------------------------ *)
+Lemma run_seq_lemma um : forall h s0,
+  clean s0 ->
+  fst (run_seq C um h s0) = map (fun tf => spec_outcome um (fst tf) (snd tf)) h /\
+  clean (snd (run_seq C um h s0)) /\
+  meta (snd (run_seq C um h s0)) = meta s0 /\ rctx (snd (run_seq C um h s0)) = rctx s0.
+Proof.
+  induction h as [|[t f] h IH]; intros s0 Hc; cbn [run_seq map fst snd].
+  - splits; auto.
+  - destruct (run_main um t f s0 Hc) as [Hc1 [Hm1 [Hr1 [_ Ho]]]].
+    destruct (run C um t f s0) as [o s1] eqn:Er. cbn [fst snd] in *.
+    destruct (IH s1 Hc1) as [Ho2 [Hc2 [Hm2 Hr2]]].
+    destruct (run_seq C um h s1) as [os s2]. cbn [fst snd] in *.
+    splits; [congruence | exact Hc2 | congruence | congruence].
+Qed.
+
+Lemma history_lemma um h :
+  fst (run_seq C um h init) = map (fun tf => fst (run C um (fst tf) (snd tf) init)) h /\
+  tables_empty (snd (run_seq C um h init)) = true /\ stacks_empty (snd (run_seq C um h init)) = true.
+Proof.
+  destruct (run_seq_lemma um h init clean_init) as [Ho [Hc [Hm Hr]]]. split; [| split].
+  - rewrite Ho. apply map_ext. intros [t f]. cbn [fst snd]. symmetry. apply outcome_is_spec_lemma. exact clean_init.
+  - apply clean_tables_empty. exact Hc.
+  - unfold stacks_empty. rewrite Hm, Hr. reflexivity.
+Qed.
+
+Local Close Scope N_scope.
 (* ------------------------------------------------------------------------------------------------ *)
 (* Witnesses against the code before the C06 repair (cfg_old), closed by computation.                 *)
 (* They are replayed on the implementation from corpus/C06/*.json.                                    *)
